@@ -73,7 +73,7 @@ fn main() {
         Some("selftest") => {
             // determinism on a sample: every family, each seed twice, same event hash
             let n: u64 = args.get(2).and_then(|s| s.parse().ok()).unwrap_or(8);
-            let fams = ["rc-mixed", "rc-weak", "rc-cells", "rc-wcells", "rc-bulk", "ebr", "ebr-churn", "ebr-longcs", "ebr-private", "guards", "tls", "dir-t1", "dir-t2", "dir-t3", "dir-t4", "dir-t5", "dir-t6", "dir-t7", "dir-t8", "dir-t9", "dir-t10", "dir-t11", "dir-t12", "dir-t13", "dir-b", "dir-t14", "dir-t15", "dir-t16", "dir-t17", "dir-t18", "dir-w", "dir-c", "client", "queue", "list", "chain", "chain-weak", "chain-mid", "agesweep"];
+            let fams = ["rc-mixed", "rc-weak", "rc-cells", "rc-wcells", "rc-bulk", "ebr", "ebr-churn", "ebr-longcs", "ebr-private", "guards", "tls", "dir-t1", "dir-t2", "dir-t3", "dir-t4", "dir-t5", "dir-t6", "dir-t7", "dir-t8", "dir-t9", "dir-t10", "dir-t11", "dir-t12", "dir-t13", "dir-b", "dir-t14", "dir-t15", "dir-t16", "dir-t17", "dir-t18", "dir-t19", "dir-w", "dir-c", "client", "queue", "list", "chain", "chain-weak", "chain-mid", "agesweep"];
             let mut bad = 0;
             let mut total = 0;
             for f in fams {
